@@ -366,7 +366,10 @@ def load_findings(pid=None):
         if os.path.isdir(d):
             for f in sorted(os.listdir(d)):
                 if f.endswith(".json"):
-                    _FINDINGS += json.load(open(os.path.join(d, f)))["findings"]
+                    try:
+                        _FINDINGS += json.load(open(os.path.join(d, f)))["findings"]
+                    except Exception as e:   # a fragment being written by someone else must not break other checks
+                        log("warning: skipping unreadable findings fragment %s (%s)" % (f, e))
     return [f for f in _FINDINGS if pid is None or pid in f.get("properties", [f.get("property")])]
 
 
